@@ -52,6 +52,8 @@ type MemConn struct {
 	local, remote memAddr
 	closed        bool
 	Written       int // bytes written by this end
+	linger        int // seconds Close waits for the peer to read (SetLinger)
+	lingerOver    bool
 }
 
 //go:norace
@@ -139,6 +141,12 @@ func (c *MemConn) Close() error {
 	rt.Point(rt.OpIO, c.pipe, nil)
 	if c.closed {
 		return &realnet.OpError{Op: "close", Net: "tcp", Err: ErrClosed}
+	}
+	if c.linger > 0 && len(c.out.segs) > 0 && !c.out.closed && !c.in.closed {
+		// lingering close: blocks until the unread data has been taken or the time is up
+		stop, _ := rt.AddTimer(time.Duration(c.linger)*time.Second, 0, func(time.Time) { c.lingerOver = true; rt.NoteWrite() })
+		rt.Point(rt.OpIO, c.pipe, func() bool { return c.lingerOver || len(c.out.segs) == 0 || c.in.closed })
+		stop()
 	}
 	c.closed = true
 	c.out.closed = true // peer reads EOF
